@@ -565,12 +565,15 @@ func (a *array) getLen() uintptr {
 }
 
 func (a *array) next(i int64) (next int64, v Value, ok bool) {
-	ok = a != nil && 0 <= i && i <= int64(a.len)
+	// Any index within the capacity of the array belongs to it, even if it is
+	// beyond the current length (that happens when items are removed during a
+	// traversal).
+	ok = a != nil && 0 <= i && i <= int64(len(a.values))
 	if !ok {
 		return
 	}
 	for {
-		if i == int64(a.len) {
+		if i >= int64(a.len) {
 			return
 		}
 		v = a.values[i]
